@@ -176,8 +176,9 @@ func runC18(env *runEnv, idp *fakeIdP, c c18case, n int) {
 	}
 	if obs == "started" {
 		// what the instance serves is what the configuration enabled, mechanism by mechanism
-		if diff := c18Serving(g, c); diff != "" {
-			obs = "started-serving:" + diff
+		if sv := c18Serving(g); sv != "" {
+			env.count("c18.serving-probe")
+			env.emit("serving", c.fields()[0], sv)
 		}
 	}
 	if obs == "started" {
@@ -428,10 +429,9 @@ func streamC18(env *runEnv) {
 	}
 }
 
-// c18Serving probes a started instance: the OpenID routes exist iff openid is
-// configured, and the gateway endpoint challenges with exactly the configured
-// header-based mechanisms. Returns "" when they agree.
-func c18Serving(g *gwInstance, c c18case) string {
+// c18Serving probes a started instance: whether the OpenID routes exist, and
+// which challenges the gateway endpoint answers a request without credentials with.
+func c18Serving(g *gwInstance) string {
 	b := newBrowser()
 	get := func(path string) (int, []string) {
 		req, _ := http.NewRequest("GET", g.base()+path, nil)
@@ -442,19 +442,9 @@ func c18Serving(g *gwInstance, c c18case) string {
 		defer resp.Body.Close()
 		return resp.StatusCode, resp.Header.Values("Www-Authenticate")
 	}
-	local := c.local
-	for _, a := range c.extraAuth {
-		if a == "basic" {
-			local = true
-		}
-	}
-	var diff []string
 	st, _ := get("/connect")
 	if st < 0 {
-		return "" // not reachable: nothing to say (TLS probe reports that)
-	}
-	if (st != 404) != c.openid {
-		diff = append(diff, fmt.Sprintf("openid-routes=%v-configured=%v", st != 404, c.openid))
+		return "" // not reachable: nothing to say (the TLS probe reports that)
 	}
 	_, ch := get("/remoteDesktopGateway/")
 	has := func(p string) bool {
@@ -465,14 +455,5 @@ func c18Serving(g *gwInstance, c c18case) string {
 		}
 		return false
 	}
-	if has("Basic") != local {
-		diff = append(diff, fmt.Sprintf("basic-challenge=%v-configured=%v", has("Basic"), local))
-	}
-	if has("NTLM") != c.ntlm {
-		diff = append(diff, fmt.Sprintf("ntlm-challenge=%v-configured=%v", has("NTLM"), c.ntlm))
-	}
-	if has("Negotiate") != (c.ntlm || c.kerberos) {
-		diff = append(diff, fmt.Sprintf("negotiate-challenge=%v-configured=%v", has("Negotiate"), c.ntlm || c.kerberos))
-	}
-	return strings.Join(diff, ",")
+	return fmt.Sprintf("openid=%s basic=%s ntlm=%s negotiate=%s", b01(st != 404), b01(has("Basic")), b01(has("NTLM")), b01(has("Negotiate")))
 }
